@@ -90,6 +90,58 @@ def run(tier, seed, replay=None):
                     rep.violation(f"[{cfg}] reported solution violates an asserted constraint: {sb[0][:300]}", e2e.replay_of(stxt, cfg, so), tags={"core:" + cfg})
                 else:
                     rep.violation(f"[{cfg}] reported solution violates an asserted constraint: {msg[:300]}", e2e.replay_of(txt, cfg, o), tags={tag})
+        # object-valued constraints: enum variables with planted (dis)equalities
+        eprogs = []
+        for _ in range(150 if tier == "quick" else 1500):
+            nvals = rng.randint(2, 4)
+            vals_ = ["r", "g", "b", "w"][:nvals]
+            nvar = rng.randint(2, 5)
+            plant = [rng.choice(vals_) for _ in range(nvar)]
+            cons = []
+            for _ in range(rng.randint(1, 5)):
+                a, b = rng.sample(range(nvar), 2)
+                if rng.random() < 0.25:
+                    cons.append((a, None, rng.choice(vals_)))
+                else:
+                    cons.append((a, b, None))
+            lines = ["enum Col {" + ", ".join(f'"{v}"' for v in vals_) + "};", "Col " + ", ".join(f"c{i}" for i in range(nvar)) + ";"]
+            sem = []
+            for a, b, lit in cons:
+                if lit is not None:
+                    eq = plant[a] == lit
+                    lines.append(f'c{a} {"==" if eq else "!="} "{lit}";')
+                    sem.append((a, None, lit, eq))
+                else:
+                    eq = plant[a] == plant[b]
+                    lines.append(f'c{a} {"==" if eq else "!="} c{b};')
+                    sem.append((a, b, None, eq))
+            eprogs.append(("\n".join(lines) + "\n", sem, nvar))
+        for cfg in e2e.cfgs(tier):
+            outs = e2e.solve_all(cfg, [p[0] for p in eprogs])
+            worst = None
+            for (txt, sem, nvar), o in zip(eprogs, outs):
+                v = e2e.verdict(o)
+                msg = None
+                if v == "T":
+                    sol = e2e.solution(o)
+                    val = {}
+                    for i in range(nvar):
+                        x = sol.value(f"c{i}")
+                        val[i] = [sol.strings.get(j) for j in x[1]] if x[0] == "enum" else [x[1] if isinstance(x[1], str) else sol.strings.get(x[1])]
+                    for a, b, lit, eq in sem:
+                        if len(val[a]) != 1 or (b is not None and len(val[b]) != 1):
+                            msg = f"enum variable left with several values: c{a} = {val[a]}"
+                        elif ((val[a][0] == (lit if b is None else val[b][0])) != eq):
+                            msg = f"`c{a} {'==' if eq else '!='} {repr(lit) if b is None else 'c' + str(b)}` is false under the reported values c{a} = {val[a][0]}" + ("" if b is None else f", c{b} = {val[b][0]}")
+                        if msg:
+                            break
+                    stats[(cfg, "enum", "T-bad" if msg else "T-ok")] = stats.get((cfg, "enum", "T-bad" if msg else "T-ok"), 0) + 1
+                else:
+                    stats[(cfg, "enum", v.split(":")[0])] = stats.get((cfg, "enum", v.split(":")[0]), 0) + 1
+                if msg and (worst is None or len(txt) < len(worst[0])):
+                    worst = (txt, o, msg)
+            if worst:
+                rep.violation(f"[{cfg}] reported solution violates an asserted constraint: {worst[2][:300]}", e2e.replay_of(worst[0], cfg, worst[1]), tags={"enum:" + cfg})
     except vlib.BuildFailure as e:
         rep.violation("the solver does not build in a supported configuration", {"kind": "build", "theorem_or_correspondence": "cmake build of /repo", "log": str(e)}, no_input=True)
     rep.cov.update({
